@@ -1304,6 +1304,8 @@ package bpmn
 // firing and after the wait for all tokens returned; the completion lock is released on every exit.
 //@ func (*Process).ceaseFlowMonitor$1
 //@   prop C02 C07
+//@   recvinv FlowTrace: is(msg.Source, *schema.StartEvent) ==> msg.Source.(*schema.StartEvent) != nil
+//@   recvinv TerminationTrace: is(msg.Source, *schema.StartEvent) ==> msg.Source.(*schema.StartEvent) != nil
 //@   flag entrylocks
 //@   flag lockeffect
 //@   requires held(mu(p.complete)) == 2
@@ -1316,7 +1318,7 @@ package bpmn
 //@   loop 1 for
 //@     invariant held(mu(p.complete)) == 2 && count(Trace, CeaseFlowTrace) == old(count(Trace, CeaseFlowTrace)) &&
 //@               count(Spawn, code("(*Process).ceaseFlowMonitor$1$1")) == old(count(Spawn, code("(*Process).ceaseFlowMonitor$1$1")))
-//@     invariant len(startEventsActivated) <= len(*p.element.StartEvents()) || true
+//@     invariant [only-start-events-that-fired-are-counted] forall a int :: off(startEventsActivated) <= a && a < off(startEventsActivated) + len(startEventsActivated) ==> at(startEventsActivated, a) != nil
 //@     exit ensures [every-start-event-seen-before-waiting-for-tokens] len(startEventsActivated) == len(*p.element.StartEvents())
 
 // The waiter inside the monitor: closes its channel only after the wait group of tokens drained.
